@@ -1,5 +1,5 @@
 (* Proofs/C14_Examples.v — instances showing that the hypotheses of the C14 theorems are
-   satisfiable (non-vacuity), and the two known findings replayed on the model. *)
+   satisfiable (non-vacuity), and the known finding MAXDIGITS replayed on the model. *)
 From Coq Require Import String.
 Require Import OV.Base.Bytes OV.Base.Py OV.Base.PyInt OV.Base.Str.
 Require Import OV.Model.C14_Py OV.Gen.C14 OV.Model.C14.
@@ -63,10 +63,6 @@ Example is_uuid_like_examples :
   is_uuid_like 4300 (PStr (lit "{0123456789abcdefABCDEF0123456789a}")) = Ok false /\ (* 33 digits, braced *)
   is_uuid_like 4300 (PInt 5) = Ok false /\ is_uuid_like 4300 PNone = Ok false.
 Proof. repeat split; vm_compute; reflexivity. Qed.
-
-(* known finding INF: float('inf') — str 'inf', int() raises OverflowError — escapes is_int_like *)
-Example finding_INF : is_int_like 4300 (POther (lit "inf") (Exn OverflowError)) = Exn OverflowError.
-Proof. reflexivity. Qed.
 
 (* known finding MAXDIGITS (shown with a limit of 2 digits): str(100) raises, so a non-strict
    bool_from_string raises ValueError instead of returning the default, and is_int_like(100) is False *)
